@@ -234,7 +234,7 @@ PROPS = {
         "NaN/infinities before decoding and negative values after; no conversion casts its primitive input to a narrower integer type or through a saturating "
         "float cast; no conversion to a primitive T goes through to_X() for an X that cannot hold every value of T; no bit count is truncated before it is "
         "range-checked. Also: the digit loop of to_f64/to_f32 (helpers inlined) leaves before the last digit only on a condition computed from the digits read - an exit decided by position alone would make the unread digits unable to set the round-to-odd bit.",
-        "technique": "abstract interpretation over the sign domain (R5) + MIR def-use checks of the error closures + guard dominance",
+        "technique": "abstract interpretation over the sign domain (R5) + MIR def-use checks of the error closures + guard dominance; loop-exit forward taint over the float conversion's digit loop (read set); ordering-test requirement for unsigned-to-signed casts",
     },
     "C09": {
         "clauses": [r9.check_iterators, r9.check_iterator_write_sets, r9.check_sign_readers, r5check.check_constructors, r1.check_biguint_normal_form, count_ok("biguint/convert.rs", "bigint/convert.rs", "biguint/iter.rs", floor=100), selftest("R2-count-narrowed")],
@@ -247,7 +247,8 @@ PROPS = {
     },
     "C10": {
         "clauses": [_c10_forwarders, _c10_signed, _c10_folds, _no_narrowing, r3.check_panic_site_table, both(r3.check_underflow_asserts), r3.check_add2_carry_used, r5check.check_arithmetic(None, 85), r5check.check_powers, r5check.check_upow, r3.check_operand_overflow, r5check.check_shifts, r5check.check_bitops, r5check.check_division_methods, r5check.check_roots, r5check.check_modular, r1.check_no_constant_cut, selftest("R2-operand-narrowed", "R3c-operand-overflow", "R3c-operand-overflow-abs", "R1-constant-cut", "R3c-digit-step"), both(r3.check_div_guards), r3.check_digit_step_checked, r1.check_biguint_normal_form],
-        "not_decided": "digit splitting/padding inside the unsigned scalar leaves and the digit arithmetic of the leaf implementations",
+        "not_decided": "digit splitting/padding inside the unsigned scalar leaves and the digit arithmetic of the leaf implementations; an operator impl that is "
+        "neither a forwarder nor in the reviewed table, and a signed leaf whose body leaves the interpreter's language, are listed as undecided (notes), not shown",
         "level_text": "Every one of the ~1286 operator impl bodies is classified from its MIR: ~970 are proven pure forwarders (operands reach the callee in order - swapped "
         "only for commutative operators -, scalar promotions are value-preserving casts, the callee's result is the result, the forwarding graph is acyclic and "
         "ends in an implementation); the ~310 implementations are compared with a reviewed table, and 88 of them (the signed ones) are interpreted abstractly: "
@@ -265,7 +266,7 @@ PROPS = {
         "nth_root/sqrt/cbrt is confined to the initial guess passed to fixpoint (cfg-taint over the two builds' MIR); the std-only guess unwraps from_f64 only "
         "behind is_finite() (to_f64 answers Some(INFINITY) for large values); the Newton driver recomputes the candidate after every update of the iterate - so "
         "the results cannot depend on the availability of floats given Newton convergence. Also: the std-only float guess is taken only for a finite float (is_finite(), or a bit-length test admitting at most MAX_EXP-1 bits - the constant is read from MIR), and the scaled retry keeps at most MAX_EXP-1 bits (`bits - K` with K evaluated from MIR), so the retry cannot see infinity again and recurse on an unshifted value.",
-        "technique": T_R3 + "; cross-configuration MIR diff with forward taint (cfg-taint)",
+        "technique": T_R3 + "; cross-configuration MIR diff with forward taint (cfg-taint); constants of the float-guess guard and of the scaled retry evaluated from MIR and compared with MAX_EXP - 1",
     },
     "C12": {
         "clauses": [fam("Pow"), _no_narrowing, r5check.check_powers, r5check.check_upow, count_ok("biguint/power.rs", "bigint/power.rs", floor=30), r1.check_biguint_normal_form, r3.check_operand_overflow, selftest("R2-operand-narrowed", "R3c-operand-overflow", "R3c-operand-overflow-abs", "R2-count-narrowed"), r3.check_panic_site_table],
@@ -284,7 +285,7 @@ PROPS = {
         "by g, in all nine sign cases; is_multiple_of takes the remainder only behind other != 0 and answers self == 0 otherwise; the BigInt wrappers (gcd, "
         "lcm, is_multiple_of, divides, is_even/is_odd, next/prev multiple, inc, dec) take magnitudes and signs as defined. Also: the two values whose trailing-zero counts give gcd's common power of two are provably non-zero at that point (forward must-analysis: is_zero tests generate, &mut uses kill, clones and moves carry the fact) - trailing_zeros() of zero counts as 0 and silently loses the factor.",
         "technique": "CFG dominance / divisor provenance over MIR; abstract interpretation over the sign domain with an uninterpreted extended_gcd and polynomial identity "
-        "checking modulo its Bezout relation",
+        "checking modulo its Bezout relation; forward must-dataflow (typestate) of 'value is non-zero' over gcd with helpers inlined",
     },
     "C14": {
         "clauses": [
@@ -329,7 +330,7 @@ PROPS = {
         "float guess is guarded by is_finite(); explicit panic sites outside debug-only code are the same in dev and release, mandatory guards are not "
         "debug-only, debug-only code is effect-free, and no exported function does overflow-checked arithmetic directly on an unconstrained caller-supplied "
         "scalar (debug panic vs release wrap). The guard rules are read differentially here: a guard that only the dev profile has (debug_assert!) is reported, a guard neither profile has is C14's. Also: no overflow-checked step on a digit (debug panics, release wraps).",
-        "technique": "type checking of the 10-configuration matrix; canonical MIR fingerprints across 4 fact configurations; cfg-taint (cross-config line diff + forward dataflow); dev-vs-release inventory",
+        "technique": "type checking of the 10-configuration matrix; canonical MIR fingerprints across 4 fact configurations; cfg-taint (cross-config line diff + forward dataflow); dev-vs-release inventory; guard rules read differentially between the dev and release profiles",
     },
     "C17": {
         "clauses": [r7.check_serde_tables, r6.check_feature_stability, r1.check_biguint_normal_form, r7.check_serde_hint_confined, r7.check_serde_declared_length],
